@@ -5,11 +5,11 @@
  *   recipe= qflags=  soxr_quality_spec(recipe, qflags);  prec= phase=  optional overrides (decimal)
  *   var=             SOXR_USE_SIMD | SOXR_USE_SIMD32 | SOXR_USE_SIMD64: set to "0" for resampler A, "1" for resampler B
  *   otype=           0 float32, 1 float64, 2 int32, 3 int16 (interleaved, one channel, SOXR_NO_DITHER)
- *   N= seed=         input frames, seed of the call schedule
+ *   N= seed=         input frames, seed of the call schedule;  rtflags= runtime_spec.flags (coefficient interpolation order)
  *   amp= f1= f2= f3= sum of three sines (cycles per INPUT sample; 0 = absent), each of amplitude amp/3... amp in units of full scale
  * Both resamplers get identical calls (same input block, same olen).  Printed: engine names, totals, number of calls whose odone
  * differs, the largest deviation of (delay + frames delivered) between the two, final delays, clip counters, and -- over the
- * steady-state part of the output -- the largest sample difference, the per-tone gain difference and the residual of the
+ * steady-state part of the output (all but the first and last eighth: many dft blocks, so that a sparse defect such as a stale block tail is inside) -- the largest sample difference, the per-tone gain difference and the residual of the
  * difference after removing the tones (least squares), all in units of full scale.  Judged by checks/c13.py.
  */
 #include <stdio.h>
@@ -74,13 +74,17 @@ static double fit(double const * d, size_t n, double const * w, int K, double * 
   return res;
 }
 
+static unsigned long rtflags;     /* runtime_spec.flags of the job (coefficient interpolation order, SOXR_NOSMALLINTOPT) */
+
 static soxr_t mk(double ir, double orr, soxr_quality_spec_t const * q, int otype, char const * var, char const * val, soxr_error_t * err)
 {
+  soxr_runtime_spec_t rt = soxr_runtime_spec(1);
   soxr_io_spec_t io = soxr_io_spec(SOXR_FLOAT64_I, otype == 0? SOXR_FLOAT32_I : otype == 1? SOXR_FLOAT64_I : otype == 2? SOXR_INT32_I : SOXR_INT16_I);
   io.flags = SOXR_NO_DITHER;
   unsetenv("SOXR_USE_SIMD"); unsetenv("SOXR_USE_SIMD32"); unsetenv("SOXR_USE_SIMD64");
   setenv(var, val, 1);
-  return soxr_create(ir, orr, 1, err, &io, q, 0);
+  rt.flags = rtflags;
+  return soxr_create(ir, orr, 1, err, &io, q, &rt);
 }
 
 int main(void)
@@ -95,7 +99,7 @@ int main(void)
     while (s && nt < 128) { t[nt++] = s; s = strtok(0, " \t\r\n"); }
     if (!nt) continue;
     ir = kvd(t, nt, "ir", 1); orr = kvd(t, nt, "or", 1); N = (size_t)kvd(t, nt, "N", 10000); otype = (int)kvd(t, nt, "otype", 1);
-    amp = kvd(t, nt, "amp", .9); rng_s = (uint64_t)kvd(t, nt, "seed", 1);
+    amp = kvd(t, nt, "amp", .9); rng_s = (uint64_t)kvd(t, nt, "seed", 1); rtflags = (unsigned long)kvd(t, nt, "rtflags", 0);
     f[0] = kvd(t, nt, "f1", 0); f[1] = kvd(t, nt, "f2", 0); f[2] = kvd(t, nt, "f3", 0);
     var = kvget(t, nt, "var"); if (!var) var = "SOXR_USE_SIMD";
     q = soxr_quality_spec((unsigned long)kvd(t, nt, "recipe", 4), (unsigned long)kvd(t, nt, "qflags", 0));
@@ -138,7 +142,7 @@ int main(void)
       if (calls > 200000) break;
     }
     {
-      size_t n = A.n < B.n? A.n : B.n, skip = n / 4, m = n - 2 * skip; double maxdiff = 0, gain = 0, resid = 0, * d = malloc((m + 1) * sizeof(double));
+      size_t n = A.n < B.n? A.n : B.n, skip = n / 8, m = n - 2 * skip; double maxdiff = 0, gain = 0, resid = 0, * d = malloc((m + 1) * sizeof(double));
       for (i = 0; i < m; ++i) { d[i] = A.y[skip + i] - B.y[skip + i]; if (fabs(d[i]) > maxdiff) maxdiff = fabs(d[i]); }
       /* phases of the basis do not matter: the fit has both quadratures */
       if (m > 64 && K) resid = fit(d, m, w, K, &gain); else resid = maxdiff;
